@@ -114,6 +114,24 @@ fn bytes_keep<T: Decode + 'static>(b: Vec<u8>) -> Option<Box<dyn core::any::Any>
 	parity_scale_codec::decode_from_bytes::<T>(bytes::Bytes::from(b)).ok().map(|x| Box::new(x) as Box<dyn core::any::Any>)
 }
 
+/// `T::decode` directly over `CountedInput<SpyInput>` (no type erasure in between, so the
+/// `Input` methods that are not object safe take their real path): (ok, count(), spy).
+fn counted_direct<T: Decode>(b: &[u8], start: u64) -> (bool, u64, u64, usize) {
+	let mut spy = crate::spy::SpyInput::new(b);
+	let (ok, count) = {
+		#[cfg(psc_verif)]
+		let mut c = parity_scale_codec::CountedInput::verif_with_count(&mut spy, start);
+		#[cfg(not(psc_verif))]
+		let mut c = {
+			let _ = start;
+			parity_scale_codec::CountedInput::new(&mut spy)
+		};
+		let r = T::decode(&mut c);
+		(r.is_ok(), c.count())
+	};
+	(ok, count, spy.delivered, spy.pos)
+}
+
 fn skip_dyn<T: Decode>(i: &mut dyn Input) -> bool {
 	T::skip(&mut Dyn(i)).is_ok()
 }
@@ -164,6 +182,9 @@ pub struct DecOps {
 	/// `decode_from_bytes`, handing back the decoded object
 	pub bytes_keep: fn(Vec<u8>) -> Option<Box<dyn core::any::Any>>,
 	pub skip: fn(&mut dyn Input) -> bool,
+	/// direct (monomorphic) decode through `CountedInput<SpyInput>` started at the given count:
+	/// (ok, count(), bytes the spy delivered, spy position)
+	pub counted: fn(&[u8], u64) -> (bool, u64, u64, usize),
 	pub all: fn(&[u8]) -> Option<Val>,
 	pub depth_slice: fn(u32, &[u8]) -> (Option<Val>, usize),
 	pub all_depth: fn(u32, &[u8]) -> Option<Val>,
@@ -219,6 +240,7 @@ impl TypeOps {
 			bytes: dec_bytes::<T>,
 			bytes_keep: bytes_keep::<T>,
 			skip: skip_dyn::<T>,
+			counted: counted_direct::<T>,
 			all: dec_all::<T>,
 			depth_slice: dec_depth_slice::<T>,
 			all_depth: dec_all_depth::<T>,
